@@ -1550,7 +1550,7 @@ theorem gs_gstep {g g' : G} {op : GOp} (h : gstep g op = .ok g') : GS g.p g'.p :
   | create s =>
     simp only [gstep] at h
     split at h
-    · cases h; exact GS.of_same ⟨rfl, rfl⟩
+    · cases h; exact GS.of_same ⟨rfl, rfl, rfl, rfl⟩
     · cases h
   | write s off bs => obtain ⟨r, hq, h⟩ := obind_ok h; cases h; exact gs_writeData hq
   | resize s n => obtain ⟨q, hq, h⟩ := obind_ok h; cases h; exact gs_resize hq
